@@ -117,7 +117,26 @@ def via_ptm3(ctx, rng, pmod):
     if (owners != 1).any():
         rec.bad("map_via_ptm3", key, {"spec": spec, "ihmax": ihmax, "bins_in_no_partition": int((owners == 0).sum()), "bins_in_two": int((owners > 1).sum())}, "map-unlabelled-bin")
         return
-    judge(rec, "map_via_ptm3", key, spec32, ihmax, lv, lab)
+    if not judge(rec, "map_via_ptm3", key, spec32, ihmax, lv, lab) or nth < 2:
+        return
+    # the same labelled spectrum stored from another starting direction (data and direction labels rolled together)
+    # is partitioned identically: the basins move with the labels
+    kk = int(rng.integers(1, nth))
+    try:
+        out2 = np.asarray(pmod.np_ptm3(np.roll(spec, kk, axis=1), np.roll(spec, kk, axis=1), f, np.roll(th, kk), parts=None, ihmax=ihmax))
+    except Exception as e:
+        rec.bad("shift_via_ptm3", key, {"spec": spec, "ihmax": ihmax, "shift": kk, "raised": repr(e)[:300]}, "ptm3-raises")
+        return
+    lab2 = np.zeros(spec.shape, dtype=np.int64)
+    j = 0
+    for p in out2:
+        if p.any():
+            j += 1
+            lab2[p != 0] = j
+    if W.shift_sets(W.as_sets(lab), kk, nth) == W.as_sets(lab2):
+        rec.ok("shift_via_ptm3", key)
+    else:
+        rec.bad("shift_via_ptm3", key, {"spec": spec, "ihmax": ihmax, "shift": kk, "labels": lab, "labels_shifted_input": lab2}, "seam-dependent-partition")
 
 
 def corpus(ctx, part):
